@@ -504,7 +504,14 @@ fn gen_pool(r: &mut Rng, max_depth: usize, tricky: bool) -> Pool {
         ents.push(T::p("_:b1"));
     }
     let preds: Vec<T> = (0..r.range(1, 4)).map(|i| T::P(format!("http://k/p{}", i))).collect();
-    let graphs: Vec<String> = (0..r.range(1, 4)).map(|i| format!("http://k/g{}", i)).collect();
+    let mut graphs: Vec<String> = (0..r.range(1, 4)).map(|i| format!("http://k/g{}", i)).collect();
+    if r.chance(1, 3) {
+        // a graph name that is also used as a subject / object term (and one used as a predicate)
+        graphs.push("http://k/e0".to_string());
+        if r.coin() {
+            graphs.push("http://k/p0".to_string());
+        }
+    }
     let mut lits: Vec<T> = vec![];
     for i in 0..r.range(1, 4) {
         lits.push(T::P(format!("{}", i)));
